@@ -700,3 +700,28 @@ def run(ck):
           "%s compares a `char` with end-of-file (line %s): the byte 0xFF is equal to EOF once it is a signed char, so the buffer refuses it or "
           "stops there" % (badef[0][0].name, badef[0][1].get("l")))
 
+    # ---------------- R2 clause: the status that is written is the status that was asked for ----------------
+    # (from the mutation sweep: `response_.code_ = code;` deleted from ResponseWriter::stream survives the suite -- every streamed
+    # response is then 200 OK)
+    ncode = 0
+    for f in [g_ for g_ in prog.funcs.values() if g_.blocks and strip_tmpl(g_.cls or "") == RW.rstrip(":")]:
+        cps = [p_["name"] for p_ in f.params if re.sub(r"\bconst\b|&|\s+", "", p_.get("type") or "").endswith("Http::Code") or (p_.get("type") or "").strip() in ("Code", "Http::Code")]
+        if not cps:
+            continue
+        sinks = [e for e in f.events(("call", "construct")) if (e.get("callee") or "") == RW + "putOnWire" or "ResponseStream" in (e.get("cls") or "")]
+        passes = [e for e in f.events("call") if strip_tmpl(e.get("callee") or "").startswith(RW) and any(a_.get("v") == cps[0] for a_ in e.get("args", []))]
+        stores = [e for e in f.events("assign") if ((e.get("lhs") or {}).get("f") or "").endswith("::code_") and (e.get("rhs") or {}).get("v") == cps[0]]
+        if not sinks:
+            # a forwarding overload: it hands the code on to another member
+            ncode += 1
+            ck.ob("C05-R2", "%s%s/code-forwarded" % (f.base.replace(H, ""), f.d.get("sig", "")[:40]), bool(passes), f.loc, f, "`%s` is handed on to %s" % (cps[0], passes[0].get("callee") if passes else "nothing"))
+            continue
+        d_ = cfg.dominators(f)
+        okc = bool(stores) and all(any(cfg.ev_dominates(d_, st_, sk_) for st_ in stores) for sk_ in sinks)
+        ncode += 1
+        ck.ob("C05-R2", "%s/code-stored-before-the-head" % f.base.replace(H, ""), okc, (sinks[0].loc), f,
+              "response_.code_ = %s precedes the writer" % cps[0] if okc else
+              "%s writes the response without storing its `%s` parameter into the response first: the status line carries the default (200 OK) "
+              "whatever the handler asked for" % (f.name, cps[0]))
+    ck.require(ncode >= 3, "ResponseWriter members taking a status code: %d" % ncode)
+
